@@ -8,14 +8,16 @@ Leaf == [leaf |-> TRUE, start |-> <<>>, dynOn |-> None, dynThen |-> <<>>, dynEls
 Rec(s, on, th, el, ds, pj, b, f, v) ==
   [leaf |-> FALSE, start |-> s, dynOn |-> on, dynThen |-> th, dynElse |-> el, disc |-> ds, proj |-> pj,
    base |-> b, force |-> f, valid |-> v, sig |-> 1]
-CProgs == { Rec(<<R("a","in"), R("b","in")>>, None, <<>>, <<>>, <<>>, <<"a","b">>, 0, FALSE, TRUE),
+CProgSeq == << Rec(<<R("a","in"), R("b","in")>>, None, <<>>, <<>>, <<>>, <<"a","b">>, 0, FALSE, TRUE),
             Rec(<<R("a","in")>>, "a", <<R("b","in")>>, <<>>, <<>>, <<"a","b">>, 1, FALSE, TRUE),
             Rec(<<R("b","follow"), R("a","in")>>, None, <<>>, <<>>, <<>>, <<"a">>, 0, FALSE, TRUE),
-            Rec(<<R("a","single")>>, None, <<>>, <<>>, <<"b">>, <<>>, 0, FALSE, TRUE) }
-DProgs == { Rec(<<R("c","in")>>, None, <<>>, <<>>, <<>>, <<"c">>, 0, FALSE, TRUE),
+            Rec(<<R("a","single")>>, None, <<>>, <<>>, <<"b">>, <<>>, 0, FALSE, TRUE) >>
+CProgs == { [CProgSeq[i] EXCEPT !.sig = i] : i \in 1..Len(CProgSeq) }
+DProgSeq == << Rec(<<R("c","in")>>, None, <<>>, <<>>, <<>>, <<"c">>, 0, FALSE, TRUE),
             Rec(<<R("a","in"), R("c","in")>>, None, <<>>, <<>>, <<>>, <<"a","c">>, 0, FALSE, TRUE),
             Rec(<<R("c","in")>>, "c", <<R("b","in")>>, <<R("a","in")>>, <<>>, <<"a","b","c">>, 0, FALSE, TRUE),
-            Rec(<<R("b","in")>>, "b", <<R("c","in")>>, <<>>, <<>>, <<"b","c">>, 0, TRUE, FALSE) }
+            Rec(<<R("b","in")>>, "b", <<R("c","in")>>, <<>>, <<>>, <<"b","c">>, 0, TRUE, FALSE) >>
+DProgs == { [DProgSeq[i] EXCEPT !.sig = i] : i \in 1..Len(DProgSeq) }
 Progs == { [k \in K |-> IF k \in L THEN Leaf ELSE IF k = "c" THEN c ELSE d] : c \in CProgs, d \in DProgs }
 CL == UNION { [1..n -> K] : n \in 2..4 }
 =============================================================================
